@@ -180,6 +180,23 @@ CHECKS = {
               'threshold not generated, except exactly representable ones); completeness of the breadth-first closure is '
               'validated, not proved; translator for VDW_RADII.'),
         technique='Coq proof (fold invariant of the distance pass, closure soundness, finite table theorem) + table regenerated from source + in-Coq correspondence with an independent radius table'),
+    'C13': dict(
+        category='proof',
+        text=('PARTIAL. Coq theorems about the mechanisms the property names: the tokeniser (a fold over characters with a '
+              'signed bracket counter) reads back every list of well-formed tokens joined by blanks or glued to bracketed '
+              'tokens, and rejects every line whose brackets do not balance; order prefixes and order attributes give the '
+              'same node, contradictions / mixed prefixes / empty bases are rejected; the section/context machine of the '
+              'force-field reader registers every declared block, link and modification exactly once, in file order, with '
+              'exactly its own lines, for every sequence of headers and lines; backward-mapping weights are '
+              'multiplicity/total with ! as zero and sum to one; the section table regenerated from the source is '
+              'consistent (every sub-section handled in the context of its top-level section). The equality '
+              'load(print(AST)) = AST for whole .ff and .itp files, and rejection of each listed fault, is differential '
+              'testing against an expected value computed from the AST (not a theorem).'),
+        design_ref='DESIGN.md section 5, C13',
+        note=('Trusted: Coq kernel + vm_compute; translator for the section/arity tables; printer and expected-value '
+              'builder of the harness; Python json; new-style .mapping files and read_backmapping_file beyond the weight '
+              'computation are not covered.'),
+        technique='Coq proof of parser mechanisms (induction over characters / events) + extracted section table + in-Coq correspondence; whole-file differential testing (declared partial)'),
 }
 NOT_APPLICABLE = {}
 PENDING_REASON = 'not yet claimed: model and proofs for this property are still being built (see DESIGN.md staging); no check is registered so nothing is asserted'
